@@ -763,6 +763,23 @@ impl Offer {
 	) -> Result<(OfferId, Option<Keypair>), ()> {
 		self.contents.verify_using_recipient_data(&self.bytes, nonce, key, secp_ctx)
 	}
+
+	/// Verification-harness accessor: `OfferContents::verify_using_metadata` (`nonce == None`) or
+	/// `OfferContents::verify_using_recipient_data` over this offer's own bytes; returns the derived
+	/// secret key bytes when signing keys were derived.
+	#[cfg(feature = "verif_hooks")]
+	pub(crate) fn verif_verify(
+		&self, nonce: Option<Nonce>, key: &ExpandedKey,
+	) -> Result<Option<[u8; 32]>, ()> {
+		let secp_ctx = Secp256k1::new();
+		let (_, keys) = match nonce {
+			Some(nonce) => {
+				self.contents.verify_using_recipient_data(&self.bytes, nonce, key, &secp_ctx)?
+			},
+			None => self.contents.verify_using_metadata(&self.bytes, key, &secp_ctx)?,
+		};
+		Ok(keys.map(|k| k.secret_bytes()))
+	}
 }
 
 macro_rules! request_invoice_derived_signing_pubkey { ($self: ident, $offer: expr, $builder: ty, $hrn: expr) => {
